@@ -24,6 +24,7 @@ import json
 import math
 import os
 import random
+import re
 import sys
 from decimal import Decimal
 
@@ -215,7 +216,11 @@ class Check:
             self.worst[key] = (score, what, case, kw)
 
     def flush(self):
-        for key in sorted(self.worst):
+        order = ["fwd-nan", "inv-nan", "fwd-nist", "inv-bound", "fwd-gap", "fwd-mono", "scale", "e2e"]
+
+        def prio(key):
+            return ([i for i, p in enumerate(order) if key.startswith(p)] + [len(order)])[0], key
+        for key in sorted(self.worst, key=prio):
             score, what, case, kw = self.worst[key]
             self.run.violation(key, what, case, **kw)
         self.worst = {}
@@ -257,8 +262,7 @@ class Check:
         inr = (ts >= lo) & (ts <= hi)
         if inr.any():
             cands = self.nist.candidates(k, ts[inr])
-            with np.errstate(invalid="ignore"):
-                dev = np.nanmin(np.abs(np.array(cands) - y[inr]), axis=0)
+            dev = np.fmin.reduce(np.abs(np.array(cands) - y[inr]), axis=0)
             dev = np.where(np.isnan(dev), np.inf, dev)
             j = int(np.argmax(dev))
             self.maxdev[k] = max(self.maxdev.get(k, 0.0), float(dev[j]))
@@ -325,7 +329,7 @@ class Check:
                      expected="a number", actual="nan")
         if corr_idx is None:
             corr_idx = range(len(vs))
-        for i in corr_idx:
+        for i in (corr_idx if self.src is not None else ()):
             x = float(vs[i])
             self.corr_cases.append(("(T%s, 2%%Z, %s, %s, %s)" % (k.upper(), cf(x), cf(0.0), cf(t[i])),
                                     {"op": "point", "type": k, "dir": "inv", "x": x.hex()}, float(t[i]), True))
@@ -406,8 +410,7 @@ class Check:
         inr = (ts >= lo) & (ts <= hi)
         if inr.any():
             cands = self.nist.candidates(k, ts[inr])
-            with np.errstate(invalid="ignore"):
-                dev = np.nanmin(np.abs(1000.0 * np.array(cands) - y1[inr]), axis=0)
+            dev = np.fmin.reduce(np.abs(1000.0 * np.array(cands) - y1[inr]), axis=0)
             dev = np.where(np.isnan(dev), np.inf, dev)
             j = int(np.argmax(dev))
             if dev[j] > 1000 * FWD_TOL_MV:
@@ -426,6 +429,8 @@ class Check:
                      {"op": "point", "type": k, "dir": "scale0", "x": float(uvs[i]).hex()},
                      expected=float(want0[i]).hex(), actual=float(y0[i]).hex())
         on = self.exp_on(k, ts)
+        if self.src is None:
+            corr_idx_t = corr_idx_v = ()
         for i in corr_idx_t:
             x = float(ts[i])
             meta = {"op": "point", "type": k, "dir": "scale1", "x": x.hex()}
@@ -532,6 +537,24 @@ class Check:
 
 
 # ---------------------------------------------------------------------------
+
+def vendored_matches_package(nist):
+    """cross-check data/nist_its90.json against the installed thermocouples_reference (when present)"""
+    try:
+        import thermocouples_reference as tr
+    except Exception:      # noqa: BLE001
+        return None
+    for k in TYPES:
+        tab = tr.thermocouples[k.upper()].func.table
+        ps = nist.pieces(k)
+        if len(tab) != len(ps):
+            return False
+        for (tmin, tmax, pc, ec), (a, b, cs, e) in zip(tab, ps):
+            if (float(tmin), float(tmax)) != (a, b) or [float(c) for c in pc][::-1] != cs or \
+                    (None if ec is None else [float(x) for x in ec]) != e:
+                return False
+    return True
+
 
 def table_differences(chk):
     """where the code's forward tables differ from the vendored NIST tables (for the report)"""
@@ -714,6 +737,14 @@ def main():
             model_built = True
         except H.BuildError as e:
             run.notes.append("models do not build either: %s" % e.what)
+    if not proved:
+        for v in run.violations:
+            if v.key == "build":        # say where, not the list of make targets
+                what, where, log = getattr(run, "broken_build", ("", "?", ""))
+                m = re.search(r'File "([^"]+)", line (\d+)[^\n]*\n(Error:[^\n]*(?:\n[^\n]+){0,3})', log)
+                v.what = "proof obligation no longer checks at %s: %s" % (
+                    where, re.sub(r"\s+", " ", m.group(3))[:200] if m
+                    else (what + ": " + (log.strip().split("\n") or [""])[-1])[:260])
     diffs = table_differences(chk)
     if diffs:
         run.notes.append({"forward_tables_differ_from_nist": diffs[:20]})
@@ -722,7 +753,7 @@ def main():
                 v.what = ("tables_are_nist: the forward tables differ from the vendored NIST tables (%s); %s"
                           % ("; ".join("type %s piece %s %s: code %r, NIST %r"
                                        % (d["type"].upper(), d.get("piece", "-"), d["what"], d["code"], d["nist"])
-                                       for d in diffs[:3]), v.what[:120]))
+                                       for d in diffs[:3]), v.what[:160]))
         print("  # forward tables differ from the vendored NIST tables: %s" % json.dumps(diffs[:4]))
     if run.replay:
         custom = replay(run, chk, json.load(open(run.replay))["case"])
@@ -763,6 +794,7 @@ def main():
     else:
         run.notes.append("correspondence skipped: models not built")
     run.cov["inverse_error_extremes"] = measured
+    run.cov["vendored_nist_table_equals_installed_thermocouples_reference"] = vendored_matches_package(chk.nist)
     run.cov["max_forward_deviation_from_nist_mV"] = {k.upper(): v for k, v in sorted(chk.maxdev.items())}
     run.cov["rule"] = ("per type and direction: %d-point grid over the NIST range widened by 20%% (plus 10%% random points), every "
                        "forward / inverse piece boundary and validity-range end with its np.nextafter neighbours, +-0.0, "
